@@ -429,6 +429,9 @@ func fillOutOfDomain(c *Ctx) []Case {
 func suiteC09(c *Ctx) []Suite {
 	return []Suite{
 		{Name: "fill/renames-and-refusals", Gen: fillOutOfDomain},
+		// templates with numbered ellipses: counts under names that name none of them (the other
+		// spelling of one that exists, one index too far) are unknown keys like any other
+		{Name: "fill/unknown-ellipsis-keys", Gen: func(c *Ctx) []Case { return ellipsisCases(c, c.N(600), 3, 3) }},
 		{Name: "fill/many-variables", Gen: func(c *Ctx) []Case {
 			// items with 9 to 40 variables, filled partly, in one and in two steps: what is left
 			// stays in its original order
@@ -856,6 +859,30 @@ func suiteC10(c *Ctx) []Suite {
 	return []Suite{
 		{Name: "ellipsis/random", Gen: func(c *Ctx) []Case { return mk(c, c.N(3000), 3, 3) }},
 		{Name: "ellipsis/deep-and-large", Gen: func(c *Ctx) []Case { return mk(c, c.N(300), 5, 12) }},
+		{Name: "ellipsis/long-tail", Gen: func(c *Ctx) []Case {
+			// the items behind an ellipsis appear once, however many there are and however often the
+			// items in front of it are repeated (judged on the real code)
+			var out []Case
+			for _, tn := range [][2]int{{4100, 4100}, {5000, 3400}, {9000, 1900}, {30, 5}} {
+				res := ""
+				safely(func() {
+					args := []interface{}{ast.NewUintNode(1, 1), "..."}
+					for i := 0; i < tn[0]; i++ {
+						args = append(args, ast.NewUintNode(1, 2))
+					}
+					var got ast.ItemNode
+					if pan, _ := safely(func() { got = ast.NewListNode(args...).FillVariables(map[string]interface{}{"...": tn[1]}) }); pan {
+						res = fmt.Sprintf("a list of one item, an ellipsis and %d more items refuses the count %d (the result has %d items)", tn[0], tn[1], tn[1]+1+tn[0])
+						return
+					}
+					if got.Size() != tn[1]+1+tn[0] || len(got.Variables()) != 0 {
+						res = fmt.Sprintf("a list of one item, an ellipsis and %d more items filled with %d has %d items, %d variables", tn[0], tn[1], got.Size(), len(got.Variables()))
+					}
+				})
+				out = append(out, Case{Detail: fmt.Sprintf("ellipsis with a tail of %d items filled with %d", tn[0], tn[1]), Oracle: res, Nontrivial: true, Tags: []string{"long-tail"}})
+			}
+			return out
+		}},
 		{Name: "ellipsis/numbered-in-sml-text", Gen: func(c *Ctx) []Case {
 			// templates written as SML text: the ellipses are numbered in the order in which they
 			// appear, also when one is followed by a list that holds another
